@@ -32,6 +32,9 @@ def step_req(client, u, kind):
         return client.post("/%s/run-step" % u)
     if kind == "empty":
         return client.post("/%s/run-step" % u, json={"settings": {}})
+    if kind.startswith("multi"):
+        # one request that advances two steps with the same settings object
+        return client.post("/%s/run-steps" % u, json={"numberSteps": 2, "settings": {"sm": {"base": {"constants": {"c": float(kind[5:])}}}}})
     return client.post("/%s/run-step" % u, json={"settings": {"sm": {"base": {"constants": {"c": float(kind)}}}}})
 
 def snapshot(app, client, u):
@@ -98,6 +101,11 @@ def run_c20(case):
         for _ in range(case.get("neighbours", 0)):
             o = start(c, timeout={"hours": 5}); begin(c, o); step_req(c, o, "none" if not case["compress"] else "1.0"); others.append(o)
         k = case["crash_at"]
+        if case.get("resession"):
+            # an earlier, longer session of the same instance (its state file is bigger than the next one)
+            for _ in range(6):
+                step_req(c, u, "1.0" if case["compress"] else "none")
+            c.post("/%s/end-session" % u); begin(c, u)
         for kind in case["kinds"][:k]:
             step_req(c, u, kind)
         del app, c                                      # the process is lost
@@ -147,9 +155,10 @@ def gen19(rnd):
     compress = rnd.random() < 0.5
     n = rnd.randint(1, 5)
     if compress:
-        kinds = [rnd.choice(['1.0', '2.0', '3.0']) for _ in range(n)]
+        kinds = [rnd.choice(['1.0', '2.0', '3.0', 'multi2.0']) for _ in range(n)]
     else:
-        kinds = [rnd.choice(['1.0', '2.0', 'none', 'empty']) for _ in range(n)]
+        kinds = [rnd.choice(['1.0', '2.0', 'none', 'empty', 'multi1.0', 'multi3.0']) for _ in range(n)]
+    kinds = kinds[:4] if any(k.startswith('multi') for k in kinds) else kinds
     return dict(compress=compress, kinds=kinds, mode=rnd.choice(['evict', 'server']))
 
 
@@ -160,7 +169,7 @@ def gen20(rnd):
     # (settings that change in mid-session are a known finding: they are not replayed after a restore)
     kinds = [c0 for _ in range(n)] if compress else [rnd.choice([c0, c0]) for _ in range(n)]
     return dict(compress=compress, kinds=kinds, crash_at=rnd.randint(0, n), torn=rnd.choice([None, None, 0.0, 0.3, 0.9]),
-                neighbours=rnd.choice([0, 1]))
+                neighbours=rnd.choice([0, 1]), resession=rnd.random() < 0.3)
 
 
 def known_probes(prop):
